@@ -41,6 +41,7 @@ type pDB struct {
 }
 
 type pBatch struct {
+	lenTerm   *Term
 	db        *pDB
 	indexed   bool
 	ops       []pOp
@@ -465,6 +466,40 @@ func init() {
 		b.ops = append(b.ops, src.ops...)
 		return Iface{}
 	})
+	// Batch.Len: the encoded size. With verif.BatchSizes(true) an arbitrary
+	// non-decreasing value (a size threshold can be crossed after any write,
+	// without megabytes of data); otherwise the header plus key/value bytes.
+	reg(P+"Batch).Len", func(p *Path, _ *frame, a []Value) Value {
+		b := pData[*pBatch](p, a[0], "Batch.Len")
+		if p.batchSizes {
+			t := p.fresh("batchlen", 64)
+			p.assume(p.ctx.And(p.ctx.Ule(p.ctx.BV(12, 64), t), p.ctx.Ult(t, p.ctx.BV(1<<40, 64))))
+			if b.lenTerm != nil {
+				p.assume(p.ctx.Ule(b.lenTerm, t))
+			}
+			b.lenTerm = t
+			return t
+		}
+		n := 12
+		for _, op := range b.ops {
+			n += 3 + len(op.k) + len(op.end)
+			if vs, ok := op.v.([]Value); ok {
+				n += len(vs)
+			}
+		}
+		return p.ctx.BV(uint64(n), 64)
+	})
+	reg(verifPkg+".BatchSizes", func(p *Path, _ *frame, a []Value) Value {
+		p.batchSizes = p.branch(p.boolArg(a[0]))
+		return nil
+	})
+	// verif.SpontaneousFlush(true): Pebble flushes its memtable whenever it likes
+	// (WAL disabled: that is the only way committed data becomes durable without
+	// an explicit Flush) - after any commit the committed state may be durable.
+	reg(verifPkg+".SpontaneousFlush", func(p *Path, _ *frame, a []Value) Value {
+		p.spontFlush = p.branch(p.boolArg(a[0]))
+		return nil
+	})
 	reg(P+"Batch).Commit", func(p *Path, _ *frame, a []Value) Value {
 		b := pData[*pBatch](p, a[0], "Batch.Commit")
 		p.yieldAtDBOp()
@@ -479,6 +514,10 @@ func init() {
 		b.db.commits++
 		b.committed = true
 		b.db.syncInode()
+		if p.spontFlush && p.chooseFree("memtable-flush", 2) == 1 {
+			b.db.flushed = b.db.ents
+			p.fsPebbleFlushed(b.db)
+		}
 		return Iface{}
 	})
 	reg(P+"Batch).Close", func(p *Path, _ *frame, a []Value) Value {
